@@ -438,3 +438,6 @@ RULES = [
     ("C16.SAMPLETWIN", 10, rule_sampletwin),
     ("C16.SYMMETRY", 8, rule_symmetry),
 ]
+
+from . import common as _common_purity
+RULES = RULES + _common_purity.purity_rules("C16")
